@@ -89,6 +89,21 @@ def sortTies (T : Config) : Bool :=
           resolveRule T r != resolveRule T r') || go rest
     go p.rules
 
+/-- No two groups with different ids carry the same address set. -/
+def distinctContent (gs : List Group) : Bool :=
+  gs.all fun g1 => gs.all fun g2 =>
+    g1.id == g2.id || !(g1.addrs.all (g2.addrs.contains ·) && g2.addrs.all (g1.addrs.contains ·))
+
+/-- Inline service entries of every rule are compact JSON (what `LoadDevice` hands to the planner
+and what a manager stores; a Netspoc / raw file may be written with white space). -/
+def rulesCompact (C : Config) : Bool :=
+  C.policies.all fun p => p.rules.all fun r => compactJSON r.attrs.svcEntries == r.attrs.svcEntries
+
+/-- Extra side conditions of the idempotence theorem (their failure = finding F-C04-se, resp. the
+artificial target with two groups of equal content). -/
+def idemOK (S : Store) (T : Config) : Bool :=
+  rulesCompact (load S) && rulesCompact T && distinctContent T.groups
+
 /-- Everything the convergence theorems assume about one pair.  (`idsOK` is not among them any
 more: after the repair f4446e1 it follows from `targetWF`, see `nsx_ids_unique`.) -/
 def accepted (S : Store) (T : Config) : Bool :=
